@@ -168,7 +168,7 @@ theorem readBlocks_rcv (csize : Int) : ∀ (k n : Nat) (buf : Bytes) (sum : Nat)
               cases h
               exact ⟨by omega, Decidable.of_not_not hcs⟩
         refine Rcv.readByte ?_ ?_
-        · intro _; exact hfin _ 0 (Nat.zero_le _)
+        · intro _; exact Rcv.ret (fun pl h => by cases h)
         · intro x _; exact hfin _ (n - 1 - 1) (by omega)
       · exact Rcv.ret (fun pl h => by cases h)
 
